@@ -35,6 +35,9 @@ type TracerCase struct {
 	PerSend int       `json:"perSender"`
 	Subs    []subPlan `json:"subs"`
 	Relay   bool      `json:"relay"`
+	// the tracer's context is cancelled once this many sends were invoked, while the senders are still at work
+	// (0: after the last sender is done and everything has settled); the senders go on and release their handles
+	CancelAfter int `json:"cancelAfter,omitempty"`
 	env     *Env
 }
 
@@ -73,8 +76,22 @@ func (t *TracerCase) Main() {
 			tr.SubscribeChannel(ch)
 			L.AddG(id, "sub-ret", "", "", 0)
 			got := 0
+			trDone := tr.Done()
 			for {
-				x, ok := <-ch
+				var x tracing.ITrace
+				var ok bool
+				select {
+				case x, ok = <-ch:
+				case <-trDone:
+					// the tracer has terminated: whatever it handed out is in the channel, and a channel it knew is closed
+					trDone = nil
+					select {
+					case x, ok = <-ch:
+					default:
+						L.AddG(id, "open-after-done", "", "", 0)
+						return
+					}
+				}
 				if !ok {
 					L.AddG(id, "closed", "", "", 0)
 					return
@@ -96,7 +113,12 @@ func (t *TracerCase) Main() {
 					// session: take it out, then join again with the very same channel and stay
 					for more := true; more; {
 						select {
-						case <-ch:
+						case _, open := <-ch:
+							if !open {
+								// the tracer terminated while the subscription was being ended and closed the channel
+								L.AddG(id, "closed", "", "", 0)
+								return
+							}
 						default:
 							more = false
 						}
@@ -136,12 +158,33 @@ func (t *TracerCase) Main() {
 			}
 		}
 	}
+	early := make(chan struct{})
+	if t.CancelAfter > 0 {
+		go func() {
+			defer close(early)
+			for int(sent.Get()) < t.CancelAfter {
+				select {
+				case <-time.After(time.Microsecond):
+				case <-ctx.Done():
+					return
+				}
+			}
+			t.env.fault("cancel-while-senders-at-work")
+			L.Add("cancel", "", "", 0)
+			cancel()
+		}()
+	} else {
+		close(early)
+	}
 	waitAll(sdone, t.Senders, "senders")
 	L.Add("senders-done", "", "", 0)
-	// let deliveries settle, then terminate the tracer: subscribers that stayed must see their channel closed
-	<-time.After(time.Second)
-	L.Add("cancel", "", "", 0)
-	cancel()
+	<-early
+	if t.CancelAfter == 0 {
+		// let deliveries settle, then terminate the tracer: subscribers that stayed must see their channel closed
+		<-time.After(time.Second)
+		L.Add("cancel", "", "", 0)
+		cancel()
+	}
 	waitAll(done, len(t.Subs), "subscribers")
 	select {
 	case <-tr.Done():
@@ -166,6 +209,10 @@ func genC09Tracer(d *Draw) Case {
 			sp.Rejoin = d.N(3) == 2
 		}
 		t.Subs = append(t.Subs, sp)
+	}
+	if !t.Relay && d.N(3) == 2 {
+		// (not through a relay: the relay is a client of both tracers that stops forwarding when the context is done)
+		t.CancelAfter = 1 + d.N(total)
 	}
 	return t
 }
@@ -193,6 +240,7 @@ func checkC09Tracer(t *TracerCase, r *simrt.Result) *Outcome {
 	sendCall := map[stamp]int64{}
 	sendCalls, sendRets := 0, 0
 	ended := false
+	cancelStep := int64(-1)
 	for _, ev := range t.env.L.E {
 		switch ev.Kind {
 		case "sub-call", "unsub-call":
@@ -214,6 +262,8 @@ func checkC09Tracer(t *TracerCase, r *simrt.Result) *Outcome {
 			get(ev.G).recv = append(get(ev.G).recv, stamp{S: sn, N: ev.N})
 		case "closed":
 			get(ev.G).closed = true
+		case "cancel":
+			cancelStep = ev.Step
 		case "send-call":
 			var sn int
 			fmt.Sscan(ev.A, &sn)
@@ -266,7 +316,8 @@ func checkC09Tracer(t *TracerCase, r *simrt.Result) *Outcome {
 		}
 		// a subscriber that stayed sees every trace sent after it subscribed, and its channel is closed at the end
 		if ended && s.subRet >= 0 && !s.left {
-			if !s.closed {
+			if !s.closed && !(cancelStep >= 0 && s.subRet > cancelStep) {
+				// (a subscription made after the cancellation may find the tracer terminated already)
 				vl.add("C09/not-closed", "subscriber %d stayed subscribed but its channel was not closed when the tracer terminated", i)
 			}
 			have := map[stamp]bool{}
@@ -328,6 +379,7 @@ func checkC09Tracer(t *TracerCase, r *simrt.Result) *Outcome {
 		return false
 	}())
 	probe(o, "relay", t.Relay)
+	probe(o, "cancelled-while-senders-at-work", t.CancelAfter > 0)
 	if left > 0 {
 		t.env.fault("unsubscribe-while-sending")
 	}
